@@ -829,6 +829,12 @@ class Exec:
         if k == 'ccast':
             op, x = c.val; v = s.const(x, env, mem)
             if op == 'bitcast': return v
+        if k == 'cstr':         # c"..." initialiser of a string global (assert messages): bytes with \XX escapes
+            t = c.val; t = t[t.index('"') + 1:t.rindex('"')]; out = []; i = 0
+            while i < len(t):
+                if t[i] == '\\': out.append(int(t[i + 1:i + 3], 16)); i += 3
+                else: out.append(ord(t[i]) & 255); i += 1
+            return [bv(b, 8) for b in out]
         raise Unsupported('const %r' % c)
     def fconst(s, d, n):
         if s.fmode == 'real':
